@@ -183,8 +183,11 @@ func childMain(args []string) {
 		}
 		mu.Unlock()
 	}
-	// the record exists (the creator's Save has returned): a Load that fails now is a torn read
-	for try := 0; ; try++ {
+	counting := *mode == "rmw" || *mode == "fresh"
+	// mode "fresh": nobody has created the record; the first updates of all goroutines of all processes race on a
+	// status file that does not exist yet (the first one starts from its blank object, every other one must load)
+	// otherwise the record exists (the creator's Save has returned): a Load that fails now is a torn read
+	for try := 0; *mode != "fresh"; try++ {
 		err := bwu.Load()
 		if err == nil {
 			break
@@ -212,12 +215,15 @@ func childMain(args []string) {
 			// check what a read (inside an update or a Load) returned
 			check := func(where string, ed any) {
 				m, _ := ed.(map[string]any)
+				if m == nil && *mode == "fresh" && where == "update" && myIncs == 0 {
+					return // possibly the very first update of the file
+				}
 				if m == nil {
 					problem("C14:record-wiped", fmt.Sprintf("%s in %s: ExtraData is %T, the counters are gone", key, where, ed))
 
 					return
 				}
-				if *mode != "rmw" {
+				if !counting {
 					return
 				}
 				if own, _ := num(m[key]); own != myIncs {
@@ -243,6 +249,9 @@ func childMain(args []string) {
 			}
 			for k := 0; k < *ops; k++ {
 				r := rng.Intn(100)
+				if *mode == "fresh" && k == 0 {
+					r = 40 // everybody's first operation is a counting update
+				}
 				switch {
 				case *mode == "save" && r < 30:
 					// blind rewrite of the caller's in-memory copy (what AllocateUnit does)
@@ -399,14 +408,19 @@ func runConfig(res *Result, base string, name string, procs, gor, ops int, seed 
 			return nil, info
 		}
 	}
-	// child 1 is the creator (mkdir + Save through the real code)
-	_, _ = kids[0].stdin.WriteString("create\n")
-	_ = kids[0].stdin.Flush()
+	// child 1 is the creator (mkdir + Save through the real code); in mode "fresh" nobody creates the record
 	crc := make(chan bool, 1)
-	go func() {
-		line, _ := kids[0].out.ReadString('\n')
-		crc <- strings.TrimSpace(line) == "created"
-	}()
+	if mode == "fresh" {
+		_ = os.MkdirAll(filepath.Join(dir, "data", "vsf", unitID), 0o700)
+		crc <- true
+	} else {
+		_, _ = kids[0].stdin.WriteString("create\n")
+		_ = kids[0].stdin.Flush()
+		go func() {
+			line, _ := kids[0].out.ReadString('\n')
+			crc <- strings.TrimSpace(line) == "created"
+		}()
+	}
 	select {
 	case ok := <-crc:
 		if !ok {
@@ -510,7 +524,7 @@ func runConfig(res *Result, base string, name string, procs, gor, ops int, seed 
 	final := &workceptor.StatusFileData{}
 	if err := final.Load(statusPath); err != nil {
 		res.violate("C14:torn-load", fmt.Sprintf("[%s %s] final Load failed: %v", name, mode, err), map[string]any{"config": name, "mode": mode, "seed": seed})
-	} else if mode == "rmw" {
+	} else if mode == "rmw" || mode == "fresh" {
 		m, _ := final.ExtraData.(map[string]any)
 		c, _ := num(m["c"])
 		info.FinalCount = c
@@ -569,7 +583,7 @@ func runConfig(res *Result, base string, name string, procs, gor, ops int, seed 
 			info.Problems = append(info.Problems, "C14:update-skipped")
 		}
 	}
-	for _, p := range sftrace.Accept(ft, mode == "rmw") {
+	for _, p := range sftrace.Accept(ft, mode == "rmw" || mode == "fresh") {
 		res.violate(p.Sig, fmt.Sprintf("[%s %s] %s", name, mode, p.What), map[string]any{"config": name, "mode": mode, "seed": seed, "ops": ops, "jitter": jitter, "trace": tracePath, "at": p.At})
 		info.Problems = append(info.Problems, p.Sig)
 	}
@@ -651,7 +665,11 @@ func runMain(args []string) {
 			lastEv = n.Ev
 		}
 		_ = lastEv
-		all = append(all, sftrace.Norm{Ev: "reset", H: mode, Own: make([]int, *npmax)})
+		tmode := mode
+		if mode == "fresh" {
+			tmode = "rmw" // the counters are meaningful from the first update on
+		}
+		all = append(all, sftrace.Norm{Ev: "reset", H: tmode, Own: make([]int, *npmax)})
 		for _, n := range ft.Events {
 			own := make([]int, *npmax)
 			copy(own, n.Own)
